@@ -415,6 +415,47 @@ def dispatch (o : Out) : Action :=
     if o.canon ≠ [] ∧ o.ips = [] then .upstream o.canon else .answer o.canon o.ips
   else .pass
 
+/-! ### The live table under configuration operations
+
+`d.conf.Rewrites` over the life of one `DNSFilter`: `WriteDiskConfig` (home
+passes the SAME `*Config` it gave to `filtering.New`, so the "copy" it makes with
+`cloneRewrites` replaces the live table) and the HTTP handlers
+`handleRewriteAdd` / `handleRewriteDelete` / `handleRewriteUpdate`
+(rewritehttp.go). -/
+
+inductive TableOp where
+  /-- `d.WriteDiskConfig(c)`, `c` the live config or another object -/
+  | write
+  /-- POST /control/rewrite/add -/
+  | add (r : Raw)
+  /-- POST /control/rewrite/delete `{domain, answer}` -/
+  | del (domain answer : Bytes)
+  /-- PUT /control/rewrite/update `{target, update}` -/
+  | upd (tdomain tanswer : Bytes) (u : Raw)
+
+/-- `(*LegacyRewrite).equal` against the (not normalized) entry built from the
+request: `Domain` and `Answer` compared byte for byte with the stored forms. -/
+def sameKey (domain answer : Bytes) (e : Entry) : Bool := e.domain == domain && e.answer == answer
+
+/-- `slices.IndexFunc` + `slices.Replace` of one element. -/
+def replaceFirst (p : Entry → Bool) (n : Entry) : List Entry → Option (List Entry)
+  | [] => none
+  | e :: es => if p e then some (n :: es) else (replaceFirst p n es).map (e :: ·)
+
+/-- New table and whether the handler answered 200. -/
+def stepTable (tbl : List Entry) : TableOp → List Entry × Bool
+  | .write => (tbl, true)                      -- `cloneRewrites` is a faithful deep copy
+  | .add r => (tbl ++ [normalize r], true)
+  | .del d a => (tbl.filter (fun e => !sameKey d a e), true)
+  | .upd td ta u =>
+    match replaceFirst (sameKey td ta) (normalize u) tbl with
+    | some t => (t, true)
+    | none => (tbl, false)                     -- 400 "target rule not found"
+
+/-- The table after a history of operations. -/
+def runTable (tbl : List Entry) (ops : List TableOp) : List Entry :=
+  ops.foldl (fun t op => (stepTable t op).1) tbl
+
 /-! ### DNS level: what the client and the upstream see
 
 `handleDNSRequest` with an upstream that answers every A question with one
